@@ -70,28 +70,32 @@ class Unit:
         # ---- ArgumentContainer: function-level extraction of addArgument and findArg
         src = open(os.path.join(core.SRC, 'library/prog_args/detail/argument_container.cpp')).read()
         bodies = []
-        for name, sig in (('addArgument', r'void ArgumentContainer::addArgument\( TypedArgBase\* arg_handler,\s*const ArgumentKey& key\)'),
+        for name, sig in (('ArgumentContainer', r'ArgumentContainer::ArgumentContainer\( bool abbr_allowed, bool stores_sub_args /\* = false \*/\):\n(?:   m\w+\([^\n]*\),?\n)+'),
+                          ('addArgument', r'void ArgumentContainer::addArgument\( TypedArgBase\* arg_handler,\s*const ArgumentKey& key\)'),
                           ('findArg', r'TypedArgBase\* ArgumentContainer::findArg\( const ArgumentKey& key\) const')):
-            m = re.search(r'^' + sig + r'\n\{.*?^\} // ArgumentContainer::' + name + r'\n', src, flags=re.M | re.S)
+            m = re.search(r'^' + sig + (r'' if name == 'ArgumentContainer' else r'\n') + r'\{.*?^\} // ArgumentContainer::' + name + r'\n', src.replace('\r', ''), flags=re.M | re.S)
             if not m:
                 raise Undecided('extraction: ArgumentContainer::%s not found in argument_container.cpp' % name)
             bodies.append(m.group(0))
         body = '\n'.join(bodies)
         body, n = re.subn(r'for \(auto const& argi : mArguments\)\n   \{', 'for (Data* cv_it = mArguments.begin(); cv_it != mArguments.end(); ++cv_it)\n   {  const Data& argi = *cv_it;', body)
+        # R-ARROW (fires only if present): the front end has no user-defined operator->; p->f() on a shared_ptr is p.get()->f()
+        body, n_arrow = re.subn(r'\.data\(\)->', '.data().get()->', body)
         body, k = re.subn(THROW_RX, 'CV_THROW( 3);', body, flags=re.M | re.S)
         if k != 1 or n < 1:
             raise Undecided('extraction: ArgumentContainer slice rules fired R-RFOR %d (>=1), R-THROW %d (1)' % (n, k))
         hdr = open(os.path.join(core.SRC, 'celma/prog_args/detail/argument_container.hpp')).read()
-        for decl in ('mArguments', 'mAbbrAllowed', 'shared_handler_t'):
+        for decl in ('mArguments', 'mAbbrAllowed', 'mStoreSubArgs', 'shared_handler_t'):
             if not re.search(r'\b%s\b' % decl, hdr):
                 raise Undecided('extraction: member %s no longer declared in argument_container.hpp' % decl)
         shell = ('// generated class shell: only the members used by the two sliced functions (declarations as in argument_container.hpp)\n'
                  'namespace celma { namespace prog_args { namespace detail {\nclass ArgumentContainer { public:\n'
+                 '   ArgumentContainer( bool abbr_allowed, bool stores_sub_args = false);\n'
                  '   void addArgument( TypedArgBase* arg_handler, const ArgumentKey& key);\n   TypedArgBase* findArg( const ArgumentKey& key) const;\n'
-                 '   typedef std::shared_ptr< TypedArgBase> shared_handler_t;\n   Storage  mArguments;\n   bool  mAbbrAllowed;\n};\n' + body + '\n}}}\n')
+                 '   typedef std::shared_ptr< TypedArgBase> shared_handler_t;\n   Storage  mArguments;\n   bool  mAbbrAllowed;\n   bool  mStoreSubArgs;\n};\n' + body + '\n}}}\n')
         scratch.write('shadow/gen_argument_container_slice.cpp', shell)
-        sh.report.append({'file': 'library/prog_args/detail/argument_container.cpp (function-level: addArgument, findArg)',
-                          'rules': {'R-RFOR': n, 'R-THROW': k, 'slice': 2}, 'diff_lines': 0, 'lines': src.count('\n')})
+        sh.report.append({'file': 'library/prog_args/detail/argument_container.cpp (function-level: constructor, addArgument, findArg)',
+                          'rules': {'R-RFOR': n, 'R-THROW': k, 'slice': 3}, 'diff_lines': 0, 'lines': src.count('\n')})
         sh.dropped += ['ArgumentContainer: every member except addArgument and findArg (checkMandatoryCardinality, checkArgMix, usage printing ...)',
                        'Handler::addArgument (forwards to ArgumentContainer::addArgument)']
         self.hpath = scratch.write('gen/h05.cpp', HARNESS)
@@ -113,7 +117,9 @@ extern "C" { int cv_thrown; int cv_may_throw; }
 // "accepted although it must be refused" fails behind the call.
 #define CV_THROW(k) { __CPROVER_assert(cv_may_throw, "unexpected refusal: an exception is thrown for an input that must be accepted"); cv_thrown = (k); __CPROVER_assume(0); }
 // the argument handler objects are opaque to the two functions (only their address is stored and returned)
-namespace celma { namespace prog_args { namespace detail { class TypedArgBase { public: int cv_id; }; }}}
+// their public state queries exist with arbitrary answers: the selected argument must not depend on them
+namespace celma { namespace prog_args { namespace detail { class TypedArgBase { public: int cv_id; bool cv_hidden, cv_deprecated, cv_replaced, cv_mandatory;
+  bool isHidden() const { return cv_hidden; } bool isDeprecated() const { return cv_deprecated; } bool isReplaced() const { return cv_replaced; } bool isMandatory() const { return cv_mandatory; } }; }}}
 #define CV_HANDLE std::shared_ptr< celma::prog_args::detail::TypedArgBase>
 #include "celma/prog_args/detail/argument_key.hpp"
 #include "library/prog_args/detail/argument_key.cpp"
@@ -124,10 +130,13 @@ using namespace celma::prog_args::detail;
 
 // ---- abstract keys: short character (0 = none) over {x,y,z}, long word (length 0 = none, else 2..KLEN) over {a,b}
 struct AKey { char sh; size_t ln; char w[KLEN]; };
-static void mk_akey(AKey& k) { unsigned char cvin_seq_s; size_t cvin_seq_n; __CPROVER_assume(cvin_seq_s <= 3 && (cvin_seq_n == 0 || (2 <= cvin_seq_n && cvin_seq_n <= KLEN)) && (cvin_seq_s != 0 || cvin_seq_n != 0));
+// (short 0, length 0) is the positional key, the one the specification "-" yields
+static void mk_akey(AKey& k) { unsigned char cvin_seq_s; size_t cvin_seq_n; __CPROVER_assume(cvin_seq_s <= 3 && (cvin_seq_n == 0 || (2 <= cvin_seq_n && cvin_seq_n <= KLEN)));
   k.sh = cvin_seq_s == 0 ? 0 : (char)('w' + cvin_seq_s); k.ln = cvin_seq_n; for (int i = 0; i < KLEN; ++i) { unsigned char cvin_seq_b; k.w[i] = (cvin_seq_b & 1) ? 'b' : 'a'; } }
 static bool same_long(const AKey& a, const AKey& b) { if (a.ln == 0 || a.ln != b.ln) return false; for (int i = 0; i < KLEN; ++i) if ((size_t)i < a.ln && a.w[i] != b.w[i]) return false; return true; }
 static bool same_short(const AKey& a, const AKey& b) { return a.sh != 0 && a.sh == b.sh; }
+static bool is_pos(const AKey& a) { return a.sh == 0 && a.ln == 0; }
+static bool same_pos(const AKey& a, const AKey& b) { return is_pos(a) && is_pos(b); }
 static bool is_prefix(const AKey& p, const AKey& k) { if (p.ln == 0 || k.ln == 0 || p.ln > k.ln) return false; for (int i = 0; i < KLEN; ++i) if ((size_t)i < p.ln && p.w[i] != k.w[i]) return false; return true; }
 static void to_key(ArgumentKey& k, const AKey& a) { k.mChar = a.sh; k.mWord.mLen = a.ln; for (int i = 0; i < KLEN; ++i) k.mWord.mData[i] = ((size_t)i < a.ln) ? a.w[i] : 0; k.mWord.mData[a.ln] = 0; }
 static TypedArgBase cv_handlers[NARGS + 1];
@@ -140,7 +149,8 @@ void h_key_ctor() {
   // forms: 0 = single key (short or long), 1 = "short,long", 2 = "long,short"; dashes optional on either part
   std::string spec; bool both = a.sh != 0 && a.ln != 0;
   __CPROVER_assume(cvin_form == 0 ? !both : both);
-  if (cvin_form == 0) { if (a.sh != 0) { if (cvin_d1) spec.append(1, '-'); spec.append(1, a.sh); } else { if (cvin_d1) spec.append(2, '-'); for (int i = 0; i < KLEN; ++i) if ((size_t)i < a.ln) spec.append(1, a.w[i]); } }
+  if (is_pos(a)) spec.append(1, '-');   // the positional argument
+  else if (cvin_form == 0) { if (a.sh != 0) { if (cvin_d1) spec.append(1, '-'); spec.append(1, a.sh); } else { if (cvin_d1) spec.append(2, '-'); for (int i = 0; i < KLEN; ++i) if ((size_t)i < a.ln) spec.append(1, a.w[i]); } }
   else { bool lf = cvin_form == 2;
     for (int part = 0; part < 2; ++part) { bool lng = (part == 0) == lf; bool d = part == 0 ? cvin_d1 : cvin_d2; if (part == 1) spec.append(1, ',');
       if (lng) { if (d) spec.append(2, '-'); for (int i = 0; i < KLEN; ++i) if ((size_t)i < a.ln) spec.append(1, a.w[i]); } else { if (d) spec.append(1, '-'); spec.append(1, a.sh); } } }
@@ -164,16 +174,16 @@ void h_key_relations() {
   AKey a, b; mk_akey(a); mk_akey(b); ArgumentKey ka('\0'), kb('\0'); to_key(ka, a); to_key(kb, b);
   bool eq = (ka == kb), mm = ka.mismatch(kb), sw = ka.startsWith(kb);
   bool both_s = a.sh != 0 && b.sh != 0, both_l = a.ln != 0 && b.ln != 0;
-  __CPROVER_assert(eq == (both_s ? a.sh == b.sh : (both_l ? same_long(a, b) : false)), "operator==: short keys decide when both have one, else the long keys");
+  __CPROVER_assert(eq == (both_s ? a.sh == b.sh : (both_l ? same_long(a, b) : same_pos(a, b))), "operator==: short keys decide when both have one, else the long keys; the positional key equals only the positional key");
   __CPROVER_assert(mm == (both_s && both_l && ((a.sh == b.sh) != same_long(a, b))), "mismatch: exactly one of short / long key agrees");
   __CPROVER_assert(sw == is_prefix(b, a), "startsWith: the other long key is a prefix of this long key");
-  __CPROVER_assert((eq || mm) == (same_short(a, b) || same_long(a, b)) || !(both_s || both_l) || (!both_s && !both_l), "a shared short or long key is detected by == or mismatch when the keys are comparable");
+  __CPROVER_assert((eq || mm) == (same_short(a, b) || same_long(a, b) || same_pos(a, b)) || !(both_s || both_l) || (!both_s && !both_l), "a shared short or long key is detected by == or mismatch when the keys are comparable");
   CANARY; }
 
 // store of NARGS_IN arguments satisfying the invariant "all short keys distinct, all long keys distinct"
-#define MKSTORE(ac, keys, cnt) ArgumentContainer ac; AKey keys[NARGS]; size_t cnt; { __CPROVER_assume(cnt <= NARGS_IN); ac.mArguments.mArgs.mSize = cnt; \
-  for (int i = 0; i < NARGS; ++i) { mk_akey(keys[i]); to_key(ac.mArguments.mArgs.mItems[i].mKey, keys[i]); ac.mArguments.mArgs.mItems[i].mData.mP = handle(i); } \
-  for (int i = 0; i < NARGS; ++i) for (int j = 0; j < NARGS; ++j) if (i < j && (size_t)j < cnt) __CPROVER_assume(!same_short(keys[i], keys[j]) && !same_long(keys[i], keys[j])); }
+#define MKSTORE(ac, keys, cnt) unsigned char cvin_ctor; ArgumentContainer ac( (cvin_ctor & 1) != 0, (cvin_ctor & 2) != 0 /* container of sub-group arguments */); AKey keys[NARGS]; size_t cnt; { __CPROVER_assume(cnt <= NARGS_IN); ac.mArguments.mArgs.mSize = cnt; \
+  for (int i = 0; i < NARGS; ++i) { mk_akey(keys[i]); to_key(ac.mArguments.mArgs.mItems[i].mKey, keys[i]); ac.mArguments.mArgs.mItems[i].mData.mP = handle(i); { unsigned char cvin_seq_f; cv_handlers[i].cv_hidden = (cvin_seq_f & 1) != 0; cv_handlers[i].cv_deprecated = (cvin_seq_f & 2) != 0; cv_handlers[i].cv_replaced = (cvin_seq_f & 4) != 0; cv_handlers[i].cv_mandatory = (cvin_seq_f & 8) != 0; } } \
+  for (int i = 0; i < NARGS; ++i) for (int j = 0; j < NARGS; ++j) if (i < j && (size_t)j < cnt) __CPROVER_assume(!same_short(keys[i], keys[j]) && !same_long(keys[i], keys[j]) && !same_pos(keys[i], keys[j])); }
 
 // addArgument: refused iff the short or the long key is already taken (this includes contradicting pairs);
 // otherwise appended, earlier entries unchanged
@@ -181,9 +191,8 @@ void h_add() {
 #define NARGS_IN (NARGS - 1)
   MKSTORE(ac, keys, cnt)
 #undef NARGS_IN
-  *const_cast<bool*>(&ac.mArguments.mAllowDuplicates) = false;
   AKey nk; mk_akey(nk); ArgumentKey k('\0'); to_key(k, nk);
-  bool taken = false; for (int i = 0; i < NARGS; ++i) if ((size_t)i < cnt && (same_short(keys[i], nk) || same_long(keys[i], nk))) taken = true;
+  bool taken = false; for (int i = 0; i < NARGS; ++i) if ((size_t)i < cnt && (same_short(keys[i], nk) || same_long(keys[i], nk) || same_pos(keys[i], nk))) taken = true;
   cv_may_throw = taken; cv_thrown = 0;
   ac.addArgument( handle(NARGS), k);
   __CPROVER_assert(!taken, "defining an argument whose short or long key is already taken (or whose pair contradicts an existing pair) is refused");
@@ -198,12 +207,12 @@ void h_find() {
 #define NARGS_IN NARGS
   MKSTORE(ac, keys, cnt)
 #undef NARGS_IN
-  unsigned char cvin_abbr; ac.mAbbrAllowed = (cvin_abbr & 1) != 0;
-  AKey q; mk_akey(q); __CPROVER_assume((q.sh != 0) != (q.ln != 0));   // a command-line key is a short or a long key
+  unsigned char cvin_abbr = cvin_ctor;   /* abbreviations as given to the constructor */
+  AKey q; mk_akey(q); __CPROVER_assume(!(q.sh != 0 && q.ln != 0));   // a command-line key is a short or a long key, or the positional key (looked up for a free value)
   if (q.ln == 1) q.ln = 2;
   ArgumentKey k('\0'); to_key(k, q);
   int exact = -1, nprefix = 0, pfx = -1;
-  for (int i = 0; i < NARGS; ++i) if ((size_t)i < cnt) { if (same_short(keys[i], q) || same_long(keys[i], q)) exact = i; else if (q.ln != 0 && is_prefix(q, keys[i])) { ++nprefix; pfx = i; } }
+  for (int i = 0; i < NARGS; ++i) if ((size_t)i < cnt) { if (same_short(keys[i], q) || same_long(keys[i], q) || same_pos(keys[i], q)) exact = i; else if (q.ln != 0 && is_prefix(q, keys[i])) { ++nprefix; pfx = i; } }
   bool abbr = ac.mAbbrAllowed;
   bool ambiguous = exact < 0 && abbr && nprefix > 1;
   cv_may_throw = ambiguous; cv_thrown = 0;
@@ -259,21 +268,22 @@ def replay(unit, job, o, inputs, scratch):
     keys = []
     for i in range(min(len(ss), len(ns))):
         w = ''.join('b' if (b & 1) else 'a' for b in bs[i * klen:(i + 1) * klen])[:max(0, min(ns[i], klen))]
-        keys.append('%s:%s' % (chr(ord('w') + ss[i]) if 0 < ss[i] <= 3 else '-', w or '-'))
+        fl = [x for x in inputs.get('cvin_seq_f', []) if isinstance(x, int)]
+        keys.append('%s:%s:%d' % (chr(ord('w') + ss[i]) if 0 < ss[i] <= 3 else '-', w or '-', (fl[i] & 15) if i < len(fl) else 0))
 
     def gi(k, d=0):
         v = inputs.get(k, d)
         return v if isinstance(v, int) else d
     if kind == 'add':
         cnt = min(gi('cnt'), len(keys) - 1)
-        args = ['add'] + ['key=' + k for k in keys[:cnt]] + ['key=' + keys[-1]]
+        args = ['add'] + ['key=' + k for k in keys[:cnt]] + ['key=' + keys[-1], 'abbr=%d' % (gi('cvin_ctor') & 1), 'sub=%d' % ((gi('cvin_ctor') >> 1) & 1)]
     elif kind == 'find':
         cnt = min(gi('cnt'), len(keys) - 1)
         q = keys[-1]
-        sh, ln = q.split(':')
+        sh, ln = q.split(':')[:2]
         if sh != '-' and ln != '-':
-            q = sh + ':-' if (gi('cvin_abbr') & 0) else q
-        args = ['find'] + ['key=' + k for k in keys[:cnt]] + ['q=' + q, 'abbr=%d' % (gi('cvin_abbr') & 1)]
+            q = q
+        args = ['find'] + ['key=' + k for k in keys[:cnt]] + ['q=' + q, 'abbr=%d' % (gi('cvin_ctor') & 1), 'sub=%d' % ((gi('cvin_ctor') >> 1) & 1)]
     else:
         return {'outcome': 'unavailable', 'detail': 'key constructor counterexamples are replayed by hand (spec text in counterexample_inputs)'}
     exe = scratch.path('replay', 'c05')
@@ -294,9 +304,9 @@ def replay_record(rec, scratch):
 
 def evidence_info(unit, tier):
     return {
-        'explanation': 'BOUNDED: keys are drawn from short keys {none,x,y,z} and long keys of 2..KLEN letters over {a,b} (every prefix relation occurs), '
+        'explanation': 'BOUNDED: keys are drawn from short keys {none,x,y,z} and long keys of 2..KLEN letters over {a,b} (every prefix relation occurs) plus the positional key "-" (no short key, no word), '
                        'the store holds up to NARGS arguments in a symbolic order satisfying the store invariant (short keys distinct, long keys distinct), '
-                       'abbreviations enabled and disabled. Obligations: ArgumentKey(spec) yields (short,long) for every documented form and refuses malformed '
+                       'abbreviations enabled and disabled, the container built by its real constructor as ordinary and as sub-group container, the stored handlers answering isHidden/isDeprecated/isReplaced/isMandatory arbitrarily (the result must not depend on them). Obligations: ArgumentKey(spec) yields (short,long) for every documented form and refuses malformed '
                        'specifications; ==, mismatch, startsWith against their definition; addArgument refuses exactly the taken/contradicting keys and '
                        'otherwise appends leaving earlier entries unchanged (so the invariant is inductive); findArg returns the exact entry whatever the '
                        'order, the unique prefix entry with abbreviations, throws for an ambiguous prefix, null otherwise. Refusal = throw; whether a throw '
